@@ -28,7 +28,7 @@ RULE = RULE + '; fractional ages at the first, a middle and the last age class; 
 ASSUMPTIONS = ['shared domain: decimal-digit numeric strings both languages define (no Python-only literals such as 1_0, inf, Unicode digits); '
                'm:ss texts only for running events',
                'functions outside the listed pairs (highjump.js, uka_agegroups.js, checkPerformanceForDiscipline) are not compared']
-RULE = RULE + '; Tyrving and QuadKids also under caller spellings of event / gender / competition type x every carrier incl. minute forms; round-up with explicit maxDP'
+RULE = RULE + '; Tyrving under gender words and labels (Women, U15 F, SM, xM ...)' + '; Tyrving and QuadKids also under caller spellings of event / gender / competition type x every carrier incl. minute forms; round-up with explicit maxDP'
 
 
 def same(py, js):
@@ -338,6 +338,16 @@ def shard(ctx, payload):
             ctx.label('tyrving-fractional-ages')
             args += [(g, ages[0] - 1, ev, '10.00'), (g, ages[-1] + 1, ev, '10.00'), (g.lower(), ages[0], ev.lower(), '10.00'),
                      ('X', ages[0], ev, '10.00'), (g, ages[0], 'MAR', '10.00'), (g, str(ages[0]), ev, '10.00')]
+            # the gender field as entry systems carry it: words, category labels, other languages' letters, padding, a letter
+            # buried inside a label - both languages take the same reading, or both refuse
+            for gw in ('Male', 'female', 'MALE ', ' f', 'Men', 'Women', 'Boys', 'Girls', 'W', 'K', 'G', 'J', 'U15 F', 'U15M', 'SM',
+                       'SW', 'SF', 'xM', 'xF', '-F', '(M)', 'Mixed', 'FM', 'MF', 'X', '', ' ', 'm\n', '\tF', 'f.', 'herr', 'dam',
+                       'kvinner', 'menn', 'gutter', 'jenter', 'OPEN', 'Fem', 'masc', '1', 'M1', 'F35'):
+                for age in (ages[0], mid_age):
+                    c = cs[rng.randrange(len(cs))] if cs else 1000
+                    args.append((gw, age, ev, fmt2(c)))
+                    args.append((gw, age, ev, centi_float(c)))
+            ctx.label('tyrving-gender-words')
             run_batch('tyrving', args, lambda a: isinstance(a[3], str) and (athlib.is_hand_timing(a[3]) or ':' in a[3] or ',' in a[3]))
         elif what == 'qkids':
             _, ct, ev = payload
